@@ -2,18 +2,114 @@
 import json, os
 VERIF = os.path.dirname(os.path.dirname(os.path.abspath(__file__)))
 
+def C(text, note, technique, design):
+    return dict(text=text, note=note, technique=technique, design=design)
+
+TIE = ("Tie to the code, checked on every run: the hand-written Coq model is extracted to OCaml and run against the real crate "
+       "(Rust harness, hooks on) on the same generated inputs / histories; every disagreement and every output that fails the "
+       "property's own executable oracle is reported with the input as replay. ")
+
 CLAIMED = {
- "C10": dict(
-   text="Proof (Coq): for every operator table and every string, the model tokenizer never panics, its tokens cover "
-        "non-empty segments on character boundaries whose text is exactly that segment (strings: between the quotes), spans "
-        "strictly increase, gaps and the tail at EOF are whitespace (Props/C10.v: C10_total, C10_text, C10_increasing, C10_gaps). "
-        "The model is tied to tokenizer.rs by running both on ~33k inputs per quick run through the cfg-guarded tokenize hook; "
-        "the property's own predicate is also evaluated on the impl's tokens alone.",
-   note="Coq kernel; hand-written Lexer.v checked against the impl by correspondence (exhaustive over a class alphabet up to "
-        "length 3, random strings, extended operator sets); longest-match for operator sets that are not prefix-closed is the "
-        "known finding D12.",
-   technique="Coq proof of a tiling invariant over the tokenizer model + differential correspondence model/impl",
-   design="6/C10"),
+ "C01": C("Proof (Coq), partial. Proved for every operator table and every string: the tokenizer model never panics and its fuel always "
+          "suffices (C01_lexer_total), the parser model never panics (C01_parser_no_panic, C01_no_panic: mutual induction over all eight "
+          "parser functions), the nesting guard refuses at MAX_DEPTH (C01_depth_guard), rendering is total. Not yet proved: sufficiency of "
+          "the parser's fuel (termination) - observed on every case (outcome FUEL never occurs). " + TIE +
+          "Stack exhaustion is measured for real: 21 deep/long input families up to n = 100 000, each in its own process on a 2 MiB thread.",
+          "Coq kernel; Lexer.v/Parser.v/Printer.v hand-written and tied by correspondence; stack bytes are a property of rustc's frames "
+          "(measured, not modelled).", "Coq proof (invariants over the tokenizer and parser models) + differential correspondence + abort detection in child processes", "6/C01"),
+ "C02": C("Proof (Coq), partial. Proved and re-checked against generated facts on every run: the operator table dumped from the impl equals "
+          "README.md's table (+ `in`), setters are exactly the right-associative level-20 operators (C02_table, C02_fixity_sets, C02_table_wf); "
+          "binding powers separate adjacent precedences (C08_*). The grouping theorem (B) parse(unparse t) = t for the whole grammar is not yet "
+          "ported from the prototype: grouping is decided on each run by an executable spec of the documented rules (minimal-parenthesis "
+          "renderer) against impl and model: all ordered operator pairs x {plain, not} x 3 shapes exhaustively + random trees. " + TIE,
+          "Coq kernel + vm_compute for the generated-fact equalities; the documented grouping rules as Python oracle (vlib/props/progs.py).",
+          "Coq generated-fact theorems + oracle-checked differential correspondence", "6/C02"),
+ "C03": C("Proof (Coq) at handler level: for ALL operand pairs a wrongly typed operand of any of the 24 numeric/bit/ordering operators, of "
+          "||, &&, beginWith, endWith, in is an error (C03_type_errors, by case analysis not sampling), no coercion (C03_no_coercion), boolean "
+          "logic / equality / membership are the documented functions (C03_logic), bit results are the 64-bit two's-complement wrap "
+          "(C03_twos_complement); decimal exactness in C09. " + TIE + "Oracle: an independent denotation with exact rationals, every operator x "
+          "every pair of a 46-value pool.", "Coq kernel; Value.v transcribes operator.rs/function.rs handlers; rust_decimal modelled (contract).",
+          "Coq case-analysis proofs over the handler model + oracle-checked differential correspondence", "6/C03"),
+ "C04": C("Proof (Coq) at handler level: division/remainder by zero, decimal overflow, a shift count outside 0..=63, a non-integral or "
+          "out-of-i64 operand of a bit operator and empty min/max are errors for ALL operands (C04_div_rem_by_zero, C04_overflow_is_err, "
+          "C04_shift_count, C04_bit_operand, C04_empty_aggregates); an accepted shift is the arithmetic one (C04_shift_ok); an exact decimal "
+          "result is unmodified (C04_fit_no_wrap). No-panic of the whole evaluator: the model's result type has no panic for built-ins; the impl "
+          "is run in BOTH debug and release builds and the two must agree. " + TIE,
+          "Coq kernel; debug + release builds of the harness; rust_decimal modelled.", "Coq proofs over the handler model + two-profile differential correspondence", "6/C04"),
+ "C05": C("Proof (Coq), partial. Proved: an unterminated string and a malformed digit run are lexical errors for every table (C05_unterminated_string, "
+          "C05_malformed_number), expect() succeeds only on exactly the expected token (C05_expect_exact), an operator without prefix role, a stray "
+          "comma/semicolon/closing delimiter or the end of input cannot start an operand (C05_operator_needs_operand_role, C05_stray_tokens). The "
+          "whole-grammar no-junk theorem (C) is not yet ported: on every run every accepted input (of all token sequences up to length 3-4 over 24 "
+          "representative tokens incl. quoted separators, and corruptions) is checked against an independent recogniser of the leniently read grammar "
+          "and against the token multiset of its AST. " + TIE, "Coq kernel; in_L recogniser in vlib/props/c05.py as oracle.",
+          "Coq proofs of the rejection clauses + exhaustive token-sequence correspondence against an independent recogniser", "6/C05"),
+ "C06": C("Proof (Coq) over the evaluator model for ARBITRARY handlers: x op= e binds exactly the handler's result in the state after e and "
+          "yields None (C06_assign), fails and binds nothing when the handler fails (C06_assign_fails), touches one name of one context (C06_frame), "
+          "a non-name target is an error (C06_non_name), unbound reads None (C06_read), programs run in order, value of the last statement, None when "
+          "empty, state at the failure (C06_program). " + TIE + "Oracle: reference interpreter written from the property text; value and the caller's "
+          "context after exec.", "Coq kernel; Eval.v transcribes parser.rs exec_*; contexts as association lists.",
+          "Coq proofs (one-step characterisations of exec) + oracle-checked differential correspondence", "6/C06"),
+ "C07": C("Proof (Coq) for ARBITRARY handlers: the unselected branch of a conditional is irrelevant to value, state and log (C07_lazy); once a part "
+          "fails the enclosing list / program / call / conditional / operator returns that failure with exactly the state at the failure, whatever stands "
+          "to its right (C07_stop); operands left then right, handler last (C07_operands_in_order); every handler invocation logged once before its "
+          "script runs (C07_call_logged). " + TIE + "Fault enumeration: an Err injected at every invocation index of random trees; the call log is "
+          "compared with a reference semantics.", "Coq kernel; Eval.v; scripted logging closures in the harness.",
+          "Coq independence proofs over exec + fault-enumeration correspondence on call logs", "6/C07"),
+ "C08": C("Proof (Coq): last registration wins and other names are untouched in all four registries (C08_last_wins), a registration before first use "
+          "survives init (C08_register_before_first_use, C08_init_idempotent), call dispatch = context function, else global, never shadowed by a "
+          "variable (C08_dispatch), binding powers fit i32 up to 10^9 and separate ANY two distinct precedences, adjacent included (C08_binding_powers, "
+          "C08_adjacent_precedences). Grouping under arbitrary registered tables: by the executable spec on each run (see C02). " + TIE +
+          "Histories in fresh processes, half of them with calls spread over persistent threads (use / re-register elsewhere / use again).",
+          "Coq kernel; registries as association lists (HashMap insert/get).", "Coq proofs over the registry/dispatch model + history correspondence in fresh processes", "6/C08"),
+ "C09": C("Proof (Coq) about the decimal MODEL (rust_decimal is a modelled dependency): ordering/equality compare the denoted rationals at the "
+          "common scale (C09_compare), + and - are the exact sum at the larger scale whenever classified exact (C09_add_exact, C09_sub_is_add_neg), * is the "
+          "exact product with the scales added (C09_mul_exact), the exact region is exactly 96 bits / 28 digits (C09_fit_complete). Literals: transcription "
+          "of the crate's parser checked by computation on boundary literals. " + TIE + "Mantissa AND scale compared on 4 000+ operand pairs biased to carries "
+          "and scale differences; exact rational oracle.", "Coq kernel; Decimal.v = contract of rust_decimal 1.31.0 measured against the crate; `%` outside the known class D21.",
+          "Coq proofs over integer-scaled decimals + mantissa/scale correspondence with an exact-rational oracle", "6/C09"),
+ "C10": C("Proof (Coq): for every operator table and every string, the model tokenizer never panics, its tokens cover non-empty segments on character "
+          "boundaries whose text is exactly that segment (strings: between the quotes), spans strictly increase, gaps and the tail at EOF are whitespace "
+          "(Props/C10.v: C10_total, C10_text, C10_increasing, C10_gaps, C10_slice_model). " + TIE + "~35k inputs per quick run through the cfg-guarded tokenize hook.",
+          "Coq kernel; longest-match for operator sets that are not prefix-closed is the known finding D12.",
+          "Coq proof of a tiling invariant over the tokenizer model + differential correspondence", "6/C10"),
+ "C11": C("Proof (Coq), partial. Proved: gaps between tokens are whitespace only (C11_gaps_are_whitespace), the four blanks are skipped alike, string "
+          "payloads are verbatim (C11_strings_verbatim), the call look-ahead skips any amount of blanks (C11_call_lookahead_skips_blanks). Invariance of the "
+          "whole parse under re-layout and re-parenthesisation is decided on each run: every gap of 600 accepted programs rewritten, every subexpression "
+          "wrapped in 1/2/5 pairs of parentheses, ASTs compared. " + TIE, "Coq kernel; token spans from the hook.",
+          "Coq tokenizer lemmas + metamorphic correspondence (layout and parenthesis variants)", "6/C11"),
+ "C12": C("Proof (Coq), partial. Proved: quote choice, the `x not OP y` spelling, parenthesisation of conditional / infix / postfix operands "
+          "(C12_quote_choice, C12_not_infix_form, C12_parenthesised_operands). The round trip parse(expr(t)) = t is decided on each run: every infix operator "
+          "under every other on either side in plain and `not` form, prefix/postfix over all compound operand kinds, strings with either quote, random trees. " + TIE,
+          "Coq kernel; Printer.v transcribes the expr family.", "Coq printer lemmas + exhaustive-nesting round-trip correspondence", "6/C12"),
+ "C13": C("Proof (Coq), partial (runtime trusted). For ANY number of threads, ANY programs and EVERY schedule of the interleaving model (once-cell gate, "
+          "atomic registry accesses): no thread inside a call ever sees a partially initialised table (C13_init_atomic), some thread can always step (C13_no_deadlock), "
+          "an un-interleaved call has its sequential result and effect (C13_solo_call_sequential), the schedule is the only non-determinism (C13_step_deterministic). "
+          "Tie: forced initialisation interleavings through the init-probe hook (5 stages), races of 2-8 first calls, re-registration windows; every result must be one "
+          "the sequential model yields under some order (all permutations evaluated).",
+          "Coq kernel; Rust memory model, std Mutex and once_cell trusted; interleavings inside one parse are raced not forced (known finding D20).",
+          "Coq invariant proofs over an interleaving model + forced-interleaving correspondence", "6/C13"),
+ "C14": C("Proof (Coq), partial. For ALL handler scripts (any nesting of parse / execute / register_* / lock-the-context), programs and re-entry depths: "
+          "evaluation never returns Deadlock and leaves every lock free and unpoisoned (C14_no_deadlock, C14_locks_released: induction over the evaluator, scripts and fuel), "
+          "a handler can lock its context and register (C14_handler_can_lock_context, C14_handler_can_register). Tie: 189 scenarios (7 handler kinds x 9 actions x depth 1-3) "
+          "in fresh processes under an 8 s watchdog.", "Coq kernel; where the Rust code takes/releases its mutexes is established by the scenarios, not by guard-lifetime analysis.",
+          "Coq invariant proof over the lock discipline of the evaluator model + scenario correspondence under a watchdog", "6/C14"),
+ "C15": C("Proof (Coq), partial. Whatever a handler does (Err or panic at any invocation) no lock is left held or poisoned (C15_locks_clean*), the fault is logged "
+          "once and propagates unchanged with exactly the state at the fault through every enclosing node (C15_handler_fault, C15_propagates), a faulting assignment binds "
+          "nothing (C15_faulting_assignment_binds_nothing). Tie: fault enumeration - Err and panic at every invocation index of programs over all six handler kinds, then a "
+          "follow-up battery on the same context, another context and another thread.", "Coq kernel; panics observed with catch_unwind.",
+          "Coq invariant proofs + fault-enumeration correspondence", "6/C15"),
+ "C16": C("Proof (Coq): parsing changes nothing but init (C16_parse_pure) and depends only on text and tables (C16_parse_deterministic), an assignment touches one "
+          "name of one context and neither registries nor log (C16_assignment_frame); the model has no hidden state by construction. The force of the check is the tie: "
+          "histories over 3 contexts vs each context's own calls (reference semantics), the same calls concurrently, repeated evaluation, and 700 failing evaluations on one "
+          "persistent thread followed by probes.", "Coq kernel.", "Coq frame lemmas + history / concurrency / soak correspondence", "6/C16"),
+ "C17": C("Proof (Coq): integer() returns n exactly for every decimal denoting an integer n in the i64 range whatever its scale, and an error otherwise "
+          "(C17_integer_complete, C17_integer_sound), Value::from(n) is exact for |n| < 2^96 (C17_from_int; beyond: known finding, C17_wide_int_known), every accessor accepts "
+          "exactly its own variant (C17_accessors). Floats: tested only. " + TIE, "Coq kernel; float digit selection inside rust_decimal not modelled.",
+          "Coq proofs over the conversion model + exhaustive 8/16-bit and boundary correspondence", "6/C17"),
+ "C18": C("Proof (Coq) for ARBITRARY descriptor functions: each node is rendered by the descriptor of its own (kind, name) applied to its children's renderings, else the "
+          "documented default (C18_own_key, C18_defaults), and the rendering depends on the table only through keys occurring in the tree (C18_frame). " + TIE +
+          "All 2^9 subsets of kinds with marker descriptors x programs covering all kinds.", "Coq kernel; DescriptorManager reached through the cfg-guarded re-export.",
+          "Coq proofs over describe for arbitrary descriptors + exhaustive marker-subset correspondence", "6/C18"),
 }
 
 NOT_YET = {}
